@@ -228,14 +228,21 @@ def make_library(rng, loader, strategies, n, mates, focus=None, phreds=(), hdr_c
 # ------------------------------------------------------------------------------------------------
 # observation
 
-def write_inputs(d, lib, pairs, mates, gz=True):
+def fastq_bytes(pairs, k, cfg):
+    """the bytes of mate file k: line terminator LF or CRLF, last record terminated by a newline or by EOF"""
+    eol = '\r\n' if cfg.get('eol') == 'crlf' else '\n'
+    text = ''.join(eol.join((pr['m'][k]['h'], pr['m'][k]['seq'], pr['m'][k]['plus'], pr['m'][k]['qual'])) + eol for pr in pairs)
+    if cfg.get('nofinalnl') and text:
+        text = text[:-len(eol)]
+    return text.encode()
+
+
+def write_inputs(d, lib, pairs, mates, gz=True, cfg=None):
     files = []
     for k in range(mates):
         p = os.path.join(d, '%s_R%d.fastq%s' % (lib, k + 1, '.gz' if gz else ''))
-        with (gzip.open(p, 'wt') if gz else open(p, 'w')) as f:
-            for pr in pairs:
-                r = pr['m'][k]
-                f.write('%s\n%s\n%s\n%s\n' % (r['h'], r['seq'], r['plus'], r['qual']))
+        with (gzip.open(p, 'wb') if gz else open(p, 'wb')) as f:
+            f.write(fastq_bytes(pairs, k, cfg or {}))
         files.append(p)
     return files
 
@@ -368,7 +375,7 @@ def api_pass(loader, strategies, pairs, cfg, maxpairs, d, target_dir, tag):
     for i, part in enumerate(split_lanes(pairs, cfg)):
         ld = os.path.join(d, '%s_lane%d' % (tag, i))
         os.makedirs(ld)
-        lanes.append(write_inputs(ld, lib, part, cfg['mates'], gz=cfg.get('gz', True)))
+        lanes.append(write_inputs(ld, lib, part, cfg['mates'], gz=cfg.get('gz', True), cfg=cfg))
     if not os.path.exists(target_dir):
         os.makedirs(target_dir)
     paired_end = cfg['mates'] == 2
@@ -382,6 +389,12 @@ def api_pass(loader, strategies, pairs, cfg, maxpairs, d, target_dir, tag):
     log_handle = open(log_location, 'w')
     log_handle.write('driver\n')
     raised, total, ylds = '', 0, collections.Counter()
+    old_limit = None
+    if cfg['percell'] and cfg.get('nofile'):
+        # a real RLIMIT_NOFILE just above what is open now: the input files of one lane + cfg['nofile'] cell files
+        import resource
+        old_limit = resource.getrlimit(resource.RLIMIT_NOFILE)
+        resource.setrlimit(resource.RLIMIT_NOFILE, (len(os.listdir('/proc/self/fd')) + cfg['mates'] + cfg['nofile'], old_limit[1]))
     try:
         with contextlib.redirect_stdout(io.StringIO()):
             for files in lanes:
@@ -396,6 +409,10 @@ def api_pass(loader, strategies, pairs, cfg, maxpairs, d, target_dir, tag):
                     break
     except Exception as ex:  # a crash of the code under test is an observation
         raised, total = type(ex).__name__, -1
+    finally:
+        if old_limit is not None:
+            import resource
+            resource.setrlimit(resource.RLIMIT_NOFILE, old_limit)
     for h in (handle, reject_handle):
         if h is not None:
             try:
@@ -433,16 +450,14 @@ def observe(target_dir, cfg, names):
             'rej': read_sinks(target_dir, os.path.join(target_dir, 'rejects'), cfg['mates'], True) if cfg['hasRej'] else []}
 
 
-def write_inputs_illumina(d, lib, lanes, mates):
+def write_inputs_illumina(d, lib, lanes, mates, cfg=None):
     """<lib>_L00<k>_R<m>_001.fastq.gz : the bcl2fastq naming, one file (pair) per lane"""
     files = []
     for li, part in enumerate(lanes, start=1):
         for k in range(mates):
             p = os.path.join(d, '%s_L%03d_R%d_001.fastq.gz' % (lib, li, k + 1))
-            with gzip.open(p, 'wt') as f:
-                for pr in part:
-                    r = pr['m'][k]
-                    f.write('%s\n%s\n%s\n%s\n' % (r['h'], r['seq'], r['plus'], r['qual']))
+            with gzip.open(p, 'wb') as f:
+                f.write(fastq_bytes(part, k, cfg or {}))
             files.append(p)
     return files
 
@@ -452,8 +467,8 @@ def cli_pass(names, pairs, cfg, maxpairs, d, out, tag):
     ind = os.path.join(d, tag)
     os.makedirs(ind)
     lanes = split_lanes(pairs, cfg)
-    files = write_inputs(ind, lib, pairs, cfg['mates'], gz=True) if len(lanes) == 1 else \
-        write_inputs_illumina(ind, lib, lanes, cfg['mates'])
+    files = write_inputs(ind, lib, pairs, cfg['mates'], gz=True, cfg=cfg) if len(lanes) == 1 else \
+        write_inputs_illumina(ind, lib, lanes, cfg['mates'], cfg)
     argv = ['demux.py'] + files + ['-use', ','.join(names), '--y', '-o', out]
     if cfg['mates'] == 1:
         argv.append('--se')
@@ -506,6 +521,7 @@ def run_event(tid, grp, entry, names, pairs, acc, cfg, obs, extra=None):
          'percell': cfg['percell'], 'maxpairs': cfg['maxpairs'], 'gz': bool(cfg.get('gz', True)), 'fh': int(cfg.get('fh', 500)), 'prune': int(cfg.get('prune') or 0),
          'prior': cfg.get('prior') or '', 'prior_k': int(cfg.get('prior_k') or 0), 'lanes': int(cfg.get('lanes', 1)),
          'lane_split': int(cfg.get('lane_split', 0)), 'stale_dir': bool(cfg.get('stale_dir')),
+         'eol': cfg.get('eol') or 'lf', 'nofinalnl': bool(cfg.get('nofinalnl')), 'nofile': int(cfg.get('nofile') or 0),
          'strategies': names, 'lib': cfg['lib'], 'N': len(pairs),
          'classes': [[p['hdr'], p['content']] for p in pairs],
          'inp': [{'id': p['id'], 'h': [r['h'] for r in p['m']], 'm': [{'seq': r['seq'], 'qual': r['qual']} for r in p['m']]}
@@ -546,7 +562,8 @@ class Recorder:
 
 
 def configs(rng, lib, mates, n, full):
-    base = {'lib': lib, 'mates': mates, 'gz': rng.random() < 0.7}
+    base = {'lib': lib, 'mates': mates, 'gz': rng.random() < 0.7, 'eol': rng.choice(['lf', 'lf', 'crlf']),
+            'nofinalnl': rng.random() < 0.4}
     out = [dict(base, hasRej=True, percell=False, maxpairs=0),
            dict(base, hasRej=False, percell=False, maxpairs=0)]
     out.append(dict(base, hasRej=rng.random() < 0.7, percell=True, maxpairs=0, fh=rng.choice([1, 2, 500]),
@@ -674,7 +691,8 @@ def main():
             n = rng.choice([0, 1, 1, 2, 3])
             mates = rng.choice([1, 2])
             pairs = make_library(rng, loader, strategies, n, mates, focus=0)
-            base = {'lib': 'TINY', 'mates': mates, 'gz': rng.random() < 0.5}
+            base = {'lib': 'TINY', 'mates': mates, 'gz': rng.random() < 0.5, 'eol': rng.choice(['lf', 'crlf']),
+                    'nofinalnl': rng.random() < 0.5}
             rec.group(loader, [name], pairs, [dict(base, hasRej=True, percell=False, maxpairs=0),
                                               dict(base, hasRej=True, percell=rng.random() < 0.5, maxpairs=max(1, n)),
                                               dict(base, hasRej=False, percell=False, maxpairs=n + 1)], workdir)
@@ -696,6 +714,36 @@ def main():
                                  content_classes=['exact', 'mm1', 'mm1', 'mm1', 'unknown', 'n_bc', 'n_umi'])
             rec.group(loader1, [name], pairs, configs(rng, 'HD1', mates, npairs, False), workdir)
 
+        # (8) long library names: the rebuilt header of SOME pairs passes the 254 character limit of asFastq, i.e. the
+        #     strategy demultiplexes the pair but the target write raises (and the formatted reject raises as well)
+        for i in range(8 if quick else 60):
+            name = rng.choice([n for n in loader.names if n != 'CHROMC16U12'])
+            mates = rng.choice([2, 2, 1])
+            strategies = loader.select([name])
+            n = rng.randint(8, 24)
+            pairs = make_library(rng, loader, strategies, n, mates, focus=0, hdr_classes=['ill11', 'ill11num', 'dec3', 'scmo', 'ill11'],
+                                 content_classes=['exact', 'exact', 'exact', 'unknown', 'mm1', 'n_umi'])
+            lib = 'LIB' + ''.join(rng.choice('abcdefghijklmnopqrstuvwxyz0123456789') for _ in range(rng.randint(50, 105)))
+            base = {'lib': lib, 'mates': mates, 'gz': True}
+            rec.group(loader, [name], pairs, [dict(base, hasRej=True, percell=False, maxpairs=0),
+                                              dict(base, hasRej=False, percell=False, maxpairs=rng.choice([0, rng.randint(1, n)])),
+                                              dict(base, hasRej=True, percell=True, maxpairs=0)], workdir)
+
+        # (9) per-cell sinks under a real RLIMIT_NOFILE below the number of cell files (HandleLimiter closes everything and
+        #     reopens in append mode; fault *injection* is C19, this is the plain operating-system limit)
+        for i in range(4 if quick else 40):
+            name = rng.choice(['CS2C8U6', 'NLAIII384C8U3', 'scCHIC384C8U3', 'MSPJIC8U3', 'DamID2', 'SCARC8R1', 'CS2C8U6NH'])
+            mates = rng.choice([2, 2, 1])
+            strategies = loader.select([name])
+            n = rng.randint(30, 60)
+            pairs = make_library(rng, loader, strategies, n, mates, focus=0, content_classes=['exact', 'exact', 'exact', 'unknown'],
+                                 hdr_classes=['ill11', 'ill11', 'ill11num', 'dec3', 'scmo', 'ill10'])
+            base = {'lib': 'FDLIMIT', 'mates': mates, 'gz': rng.random() < 0.5}
+            rec.group(loader, [name], pairs, [dict(base, hasRej=True, percell=False, maxpairs=0),
+                                              dict(base, hasRej=rng.random() < 0.5, percell=True, maxpairs=0, nofile=rng.randint(2, 4)),
+                                              dict(base, hasRej=True, percell=True, maxpairs=rng.randint(1, n), nofile=rng.randint(2, 4),
+                                                   lanes=2, lane_split=rng.randint(0, n))], workdir)
+
         # (6) the real command line entry point (loads its own barcode files: a few seconds per run)
         for i in range(1 if quick else 8):
             name = rng.choice(['CS2C8U6', 'NLAIII384C8U3', 'scCHIC384C8U3', 'MSPJIC8U3', 'DamID2'])
@@ -705,6 +753,10 @@ def main():
             pairs = make_library(rng, loader, strategies, n, mates, focus=0)
             cfg = {'lib': 'CLILIB', 'mates': mates, 'hasRej': i % 3 != 2, 'percell': i % 2 == 1,
                    'maxpairs': 0 if i % 4 != 2 else rng.randint(1, n)}
+            if i % 2 == 1 or quick:
+                cfg.update(nofinalnl=True, eol='crlf' if i % 4 == 3 else 'lf')
+            if i == 5:
+                cfg['lib'] = 'CLILIB' + 'x' * 78
             if quick:       # the usual way of working: -n k to have a look, then the real run into the same -o, one file per cell
                 cfg.update(percell=True, prior='testrun', prior_k=rng.randint(1, n))
             elif i % 4 == 1:
@@ -732,7 +784,8 @@ def replay(rec, case_path, workdir):
              for p, c in zip(ev['inp'], ev['classes'])]
     cfgs = [{'lib': e['lib'], 'mates': e['mates'], 'gz': e.get('gz', True), 'fh': e.get('fh', 500), 'prune': e.get('prune', 0),
              'prior': e.get('prior') or None, 'prior_k': e.get('prior_k', 0), 'lanes': e.get('lanes', 1),
-             'lane_split': e.get('lane_split', 0), 'stale_dir': e.get('stale_dir', False), 'hasRej': e['hasRej'],
+             'lane_split': e.get('lane_split', 0), 'stale_dir': e.get('stale_dir', False), 'eol': e.get('eol', 'lf'),
+             'nofinalnl': e.get('nofinalnl', False), 'nofile': e.get('nofile', 0), 'hasRej': e['hasRej'],
              'percell': e['percell'], 'maxpairs': e['maxpairs']} for e in evs]
     rec.group(loader, ev['strategies'], pairs, cfgs, workdir, entry=ev.get('entry', 'api'),
               extra={'scn': ev['scn']} if 'scn' in ev else None)
